@@ -155,6 +155,8 @@ class FetcherRun:
         self.cm.__exit__(None, None, None)
 
     def share(self, sid, shnum, server, rtt):
+        if sid in self.shares:          # a re-announcement (malformed stream) is the same object again
+            return self.shares[sid]
         if server not in self.servers:
             self.servers[server] = FakeServer(server)
         sh = FakeShare(sid, shnum, self.servers[server], rtt, self.calls)
@@ -200,11 +202,6 @@ class FetcherRun:
         except (KeyError, AttributeError) as e:
             self.calls.append(exc_name(e))
         return (",".join(self.calls) or "-") + "|" + fetcher_digest(f, len(self.queue), self.node.verdict)
-
-    # -- what the environment can observe (used by the script generator)
-    def outstanding(self):
-        """ids of shares whose get_block was called and whose observer was neither cancelled nor answered"""
-        return [sid for sid in self.started_ids() if sid not in self.finished]
 
     def started_ids(self):
         return [sid for sid, sh in self.shares.items() if sh.observers]
@@ -320,3 +317,679 @@ def replay_fetch_script(k, toks):
         return [R.apply(t) for t in toks], R.node.verdict
     finally:
         R.close()
+
+
+# ----------------------------------------------------------------------------- node level
+
+ERRNAME = {"NotEnoughSharesError": "NotEnoughShares", "NoSharesError": "NoShares",
+           "BadSegmentNumberError": "BadSegmentNumber", "BadCiphertextHashError": "decode-failed"}
+
+
+class FakeFinder:
+    def __init__(self, run):
+        self.run = run
+
+    def hungry(self):
+        self.run.calls.append("%d:want" % self.run.cur)
+
+    def stop(self):
+        pass
+
+    def update_num_segments(self):
+        pass
+
+
+class NodeRun:
+    """A real DownloadNode (segment queue, fetch_failed, process_blocks, _cancel_request, got_shares …)
+    with fake shares, a fake finder and stubbed decode / ciphertext-hash check."""
+
+    def __init__(self, k, numsegs, badsegs):
+        from twisted.internet import defer
+        from allmydata import uri
+        from allmydata.immutable.downloader import node as nm, fetcher as fm, common as dc
+        from allmydata.immutable.downloader.status import DownloadStatus
+        self.dc = dc
+        self.calls = []
+        self.queue = []
+        self.cur = -1
+        self.fetchers = {}
+        self.servers = {}
+        self.shares = {}
+        self.reqs = {}
+        self.retired = []
+        self.numsegs = numsegs
+        run = self
+
+        class GenFetcher(fm.SegmentFetcher):
+            def __init__(self, *a, **kw):
+                fm.SegmentFetcher.__init__(self, *a, **kw)
+                self.gen = len(run.fetchers)
+                self.verdict_s = None
+                run.fetchers[self.gen] = self
+        self.cm = patched_eventually(self.queue)
+        self.cm.__enter__()
+        self._saved_sf = nm.SegmentFetcher
+        nm.SegmentFetcher = GenFetcher
+        vcap = uri.CHKFileVerifierURI(b"s" * 16, b"u" * 32, k, 10, max(1, numsegs) * k * 10)
+        self.node = node = nm.DownloadNode(vcap, None, None, None, None, DownloadStatus(b"s" * 16, vcap.size))
+        node._sharefinder = FakeFinder(self)
+
+        def decode(segnum, blocks):
+            return defer.succeed((b"x" * 10, 0.0))
+
+        def check(segment_and_decodetime, segnum):
+            if segnum in badsegs:
+                raise dc.BadCiphertextHashError("stub")
+            return (segnum * 10, segment_and_decodetime[0], 0.0)
+        node._decode_blocks = decode
+        node._check_ciphertext_hash = check
+        orig_ff, orig_pb = node.fetch_failed, node.process_blocks
+
+        def ff(sf, f):
+            sf.verdict_s = "failed:" + f.value.__class__.__name__.replace("Error", "")
+            return orig_ff(sf, f)
+
+        def pb(segnum, blocks):
+            if node._active_segment is not None:
+                node._active_segment.verdict_s = "blocks:" + show_blocks(blocks)
+            return orig_pb(segnum, blocks)
+        node.fetch_failed = ff
+        node.process_blocks = pb
+
+    def close(self):
+        from allmydata.immutable.downloader import node as nm
+        nm.SegmentFetcher = self._saved_sf
+        self.cm.__exit__(None, None, None)
+
+    def share(self, sid, shnum, server, rtt):
+        if sid in self.shares:          # a re-announcement (malformed stream) is the same object again
+            return self.shares[sid]
+        if server not in self.servers:
+            self.servers[server] = FakeServer(server)
+        calls = _TaggedCalls(self)
+        sh = FakeShare(sid, shnum, self.servers[server], rtt, calls)
+        self.shares[sid] = sh
+        return sh
+
+    def _drain_delivers(self):
+        rest = []
+        for item in self.queue:
+            fn = item[0]
+            if getattr(fn, "__name__", "") == "_deliver":
+                fn(*item[1], **item[2])
+            else:
+                rest.append(item)
+        self.queue[:] = rest
+
+    def apply(self, tok):
+        del self.calls[:]
+        node = self.node
+        parts = tok.split(":")
+        act = node._active_segment
+        self.cur = act.gen if act is not None else -1
+        try:
+            if parts[0] == "g":
+                seg, req = int(parts[1]), int(parts[2])
+                self.cur = len(self.fetchers)      # a fetcher created now gets this generation
+                d, c = node.get_segment(seg)
+                self.reqs[req] = c
+
+                def _ok(res, req=req):
+                    self.retired.append("%d=ok" % req)
+
+                def _err(f, req=req):
+                    self.retired.append("%d=%s" % (req, ERRNAME.get(f.value.__class__.__name__, f.value.__class__.__name__)))
+                d.addCallbacks(_ok, _err)
+            elif parts[0] == "c":
+                self.cur = len(self.fetchers)
+                c = self.reqs.get(int(parts[1]))
+                if c is not None:
+                    c.cancel()
+            elif parts[0] == "a":
+                shs = []
+                if parts[1] != "-":
+                    for t in parts[1].split(","):
+                        sid, shnum, server, rtt = [int(x) for x in t.split(".")]
+                        shs.append(self.share(sid, shnum, server, rtt))
+                try:
+                    node.got_shares(shs)
+                except AttributeError:
+                    self.calls.append("%d:exc=attr" % self.cur)
+            elif parts[0] == "n":
+                node.no_more_shares()
+            elif parts[0] == "u":
+                node.num_segments = self.numsegs
+            elif parts[0] == "s":
+                g, sh = int(parts[1]), self.shares[int(parts[2])]
+                state = getattr(self.dc, ST[parts[3]])
+                kw = {}
+                if parts[3] == "C":
+                    kw["block"] = sh.sid
+                if parts[3] == "D":
+                    kw["f"] = None
+                    sh._alive = False
+                f = self.fetchers.get(g)
+                if f is not None:
+                    self.cur = g
+                    try:
+                        f._block_request_activity(share=sh, shnum=sh._shnum, state=state, **kw)
+                    except KeyError:
+                        self.calls.append("%d:exc=key" % g)
+            elif parts[0] == "l":
+                g = int(parts[1])
+                f = self.fetchers.get(g)
+                if f is not None:
+                    self.cur = g
+                    for i, item in enumerate(self.queue):
+                        if getattr(item[0], "__self__", None) is f:
+                            del self.queue[i]
+                            item[0](*item[1], **item[2])
+                            break
+                    else:
+                        f.loop()
+            else:
+                raise ValueError(tok)
+        finally:
+            self._drain_delivers()
+        act = node._active_segment
+        reqs = ",".join("%d.%d" % (t[0], self._reqid(t[2])) for t in node._segment_requests) or "-"
+        if act is None:
+            a_s, fd = "-", "-"
+        else:
+            a_s = "%d.%d.%d" % (act.gen, act.segnum, 1 if act._running else 0)
+            pend = sum(1 for item in self.queue if getattr(item[0], "__self__", None) is act)
+            fd = "-|" + fetcher_digest(act, pend, act.verdict_s)
+        return "|".join([",".join(self.calls) or "-", reqs, a_s, ",".join(self.retired) or "-", fd])
+
+    def _reqid(self, c):
+        for r, cc in self.reqs.items():
+            if cc is c:
+                return r
+        return -1
+
+
+class _TaggedCalls:
+    """list-like sink that tags `start=` entries of fake shares with the running fetcher's generation"""
+
+    def __init__(self, run):
+        self.run = run
+
+    def append(self, s):
+        self.run.calls.append("%d:%s" % (self.run.cur, s))
+
+
+def gen_node_script(rng, malformed=False, max_events=160):
+    """Seeded environment for the node: several get_segment requests (also concurrent and for the same
+    segment), cancels, share announcements, answers, UEB arrival, decode failures on `badsegs`."""
+    k = rng.choice([1, 1, 2, 2, 3])
+    numsegs = rng.choice([1, 2, 3])
+    badsegs = sorted(s for s in range(numsegs) if rng.random() < 0.3)
+    nshnums = rng.choice([1, 2, 3, 4])
+    nservers = rng.choice([1, 2, 3])
+    shares = []
+    used_keys = set()
+    for i in range(rng.choice([0, 1, 2, 3, 4, 6, 8])):
+        shnum, server = rng.randrange(nshnums), rng.randrange(nservers)
+        rtt = rng.randrange(0, 50)
+        if (shnum, rtt) in used_keys or (shnum, server) in [(s[1], s[2]) for s in shares]:
+            continue          # the node keeps its shares in a set: avoid sort-key ties (iteration order unspecified)
+        used_keys.add((shnum, rtt))
+        shares.append((len(shares), shnum, server, rtt))
+    pgood = rng.choice([0.4, 0.8, 1.0])
+    # per share and segment: the terminal answer
+    def answer(sid, seg):
+        r = rng.random()
+        return "C" if r < pgood else rng.choice(["X", "D"])
+    R = NodeRun(k, numsegs, badsegs)
+    toks, digs = [], []
+
+    def do(tok):
+        toks.append(tok)
+        digs.append(R.apply(tok))
+    try:
+        unannounced = list(shares)
+        rng.shuffle(unannounced)
+        nreq = rng.choice([1, 2, 3, 4, 5])
+        next_req = 0
+        finished = {}     # (gen, sid) -> True
+        overdue = set()
+        told_nomore = set()
+        ueb = False
+        while len(toks) < max_events:
+            act = R.node._active_segment
+            acts = []
+            if next_req < nreq:
+                acts += ["get"] * 2
+            if R.reqs and rng.random() < 0.15:
+                acts += ["cancel"]
+            loops = [it for it in R.queue if getattr(it[0], "__name__", "") == "loop"]
+            if loops:
+                acts += ["loop"] * 4
+            started = []
+            if act is not None and act._running:
+                started = [sh.sid for sh in set(s for ss in act._shares_from_server.values() for s in ss)]
+                if unannounced:
+                    acts += ["announce"] * 2
+                elif act.gen not in told_nomore:
+                    acts += ["nomore"] * 2
+                if started:
+                    acts += ["term"] * 3
+                    if rng.random() < 0.3:
+                        acts += ["overdue"]
+            if not ueb and rng.random() < 0.3:
+                acts += ["ueb"]
+            if malformed and rng.random() < 0.1:
+                acts += ["bogus"] * 2
+            if not acts:
+                break
+            a = rng.choice(acts)
+            if a == "get":
+                seg = rng.randrange(numsegs + (1 if rng.random() < 0.3 else 0))
+                do("g:%d:%d" % (seg, next_req))
+                next_req += 1
+            elif a == "cancel":
+                do("c:%d" % rng.choice(list(R.reqs)))
+            elif a == "loop":
+                f = loops[0][0].__self__
+                do("l:%d" % f.gen)
+            elif a == "announce":
+                n = rng.randrange(1, min(3, len(unannounced)) + 1)
+                batch, unannounced = unannounced[:n], unannounced[n:]
+                do("a:" + ",".join(share_tok(s) for s in batch))
+            elif a == "nomore":
+                told_nomore.add(act.gen)
+                do("n")
+            elif a == "term":
+                sid = rng.choice(started)
+                do("s:%d:%d:%s" % (act.gen, sid, answer(sid, act.segnum)))
+            elif a == "overdue":
+                cands = [s for s in started if (act.gen, s) not in overdue and
+                         any(x.sid == s for x in act._active_share_map.values())]
+                if cands:
+                    sid = rng.choice(cands)
+                    overdue.add((act.gen, sid))
+                    do("s:%d:%d:O" % (act.gen, sid))
+            elif a == "ueb":
+                ueb = True
+                do("u")
+            else:
+                r = rng.random()
+                if r < 0.3 and R.fetchers:
+                    do("l:%d" % rng.choice(list(R.fetchers)))
+                elif r < 0.7 and R.shares and R.fetchers:
+                    do("s:%d:%d:%s" % (rng.choice(list(R.fetchers)), rng.choice(list(R.shares)), rng.choice("CXDB")))
+                elif R.reqs:
+                    do("c:%d" % rng.choice(list(R.reqs)))
+                else:
+                    do("n")
+        act = R.node._active_segment
+        info = {"k": k, "numsegs": numsegs, "badsegs": badsegs, "requests": next_req,
+                "waiting": [R._reqid(t[2]) for t in R.node._segment_requests],
+                "retired": list(R.retired),
+                "active": None if act is None else (act.gen, act.segnum, bool(act._running)),
+                "queued": len(R.queue),
+                "outstanding": 0 if act is None or not act._running else
+                sum(len(ss) for ss in act._shares_from_server.values()),
+                "nomore": act is not None and act.gen in told_nomore,
+                "unannounced": len(unannounced)}
+    finally:
+        R.close()
+    return (k, numsegs, badsegs), toks, digs, info
+
+
+def replay_node_script(k, numsegs, badsegs, toks):
+    R = NodeRun(k, numsegs, badsegs)
+    try:
+        digs = [R.apply(t) for t in toks]
+        act = R.node._active_segment
+        info = {"waiting": [R._reqid(t[2]) for t in R.node._segment_requests], "retired": list(R.retired),
+                "active": None if act is None else (act.gen, act.segnum, bool(act._running))}
+        return digs, info
+    finally:
+        R.close()
+
+
+# ----------------------------------------------------------------------------- end-to-end grid scenarios
+
+def _grid():
+    import grid
+    return grid
+
+
+def make_fault_wrapper():
+    """LocalWrapper with per-server fault plans evaluated per call:
+    plan(methname, nth_call) -> None | ("delay", secs) | "error" | "hang" | "disconnect".
+    A hung call is failed (DeadReferenceError) when the server is disconnected later."""
+    grid = _grid()
+    from twisted.internet import defer
+    from twisted.python.failure import Failure
+    from foolscap.api import DeadReferenceError
+
+    Base = grid.LocalWrapper
+    assert Base.__name__ == "LocalWrapper"
+
+    class FaultWrapper(Base):
+        def callRemote(self, methname, *args, **kwargs):
+            owner = self.owner
+            owner.ncalls = getattr(owner, "ncalls", 0) + 1
+            plan = getattr(owner, "plan", None)
+            act = plan(methname, owner.ncalls) if (plan and not owner.broken) else None   # a dropped connection fails at once
+            if act == "disconnect":
+                self.drop()
+            d = Base.callRemote(self, methname, *args, **kwargs)
+            if act == "error":
+                d.addBoth(lambda r: Failure(grid.IntentionalError("injected error in %s" % methname)))
+                return d
+            if isinstance(act, tuple) and act[0] == "delay":
+                d2 = defer.Deferred()
+                d.addBoth(lambda r: self.rt.clock.callLater(act[1], d2.callback, r))
+                return d2
+            if act == "hang":
+                d2 = defer.Deferred()
+                if not hasattr(owner, "hung_calls"):
+                    owner.hung_calls = []
+                owner.hung_calls.append(d2)
+                d.addBoth(lambda r: None)
+                return d2
+            return d
+
+        def drop(self):
+            owner = self.owner
+            owner.broken = True
+            ds, owner.disconnectors = owner.disconnectors, {}
+            for (f, a, k) in ds.values():
+                f(*a, **k)
+            hung, owner.hung_calls = getattr(owner, "hung_calls", []), []
+            for d in hung:
+                d.errback(Failure(DeadReferenceError("connection lost")))
+    return FaultWrapper
+
+
+@contextlib.contextmanager
+def fault_grid(seed, policy, tag, **kw):
+    """A grid whose wrappers are FaultWrappers; yields (rt, g)."""
+    grid = _grid()
+    saved = grid.LocalWrapper
+    grid.LocalWrapper = make_fault_wrapper()
+    try:
+        # injected faults make the real code log.err() a lot; twisted's pre-startLogging observer prints those
+        from twisted.python import log as _tlog
+        if getattr(_tlog, "defaultObserver", None) is not None:
+            _tlog.defaultObserver.stop()
+            _tlog.defaultObserver = None
+    except Exception:
+        pass
+    try:
+        with grid.Runtime(seed=seed, policy=policy) as rt:
+            g = grid.Grid(grid.fresh_dir(tag), rt, **kw)
+            try:
+                yield rt, g
+            finally:
+                g.close()
+    finally:
+        grid.LocalWrapper = saved
+
+
+def wait_all(rt, ds, horizon=400.0, max_steps=400000):
+    """Pump until every Deferred in ds has fired or the system is quiescent: nothing deliverable and no
+    timer within `horizon` virtual seconds (the storage servers' crawlers re-arm timers forever, so
+    "no timers at all" never happens).  Returns the list of results: ("ok", value) | ("err", Failure) |
+    ("stuck", None)."""
+    boxes = [[] for _ in ds]
+    for d, b in zip(ds, boxes):
+        d.addBoth(b.append)
+    t0 = rt.clock.seconds()
+    steps = 0
+    while True:
+        steps += 1
+        if steps > max_steps:
+            break
+        if all(boxes) and not rt.pending_now():
+            break
+        if rt.step():
+            continue
+        if all(boxes):
+            break
+        calls = rt.clock.getDelayedCalls()
+        if not calls:
+            break
+        nxt = min(c.getTime() for c in calls)
+        if nxt - t0 > horizon:
+            break
+        rt.clock.advance(max(0, nxt - rt.clock.seconds()))
+    from twisted.python.failure import Failure
+    res = []
+    for b in boxes:
+        if not b:
+            res.append(("stuck", None))
+        elif isinstance(b[0], Failure):
+            res.append(("err", b[0]))
+        else:
+            res.append(("ok", b[0]))
+    return res
+
+
+def share_layout(path):
+    """offsets of an immutable v1 share file (container header 12 bytes)"""
+    import struct
+    b = open(path, "rb").read()
+    base = 12
+    ver, block_size, data_size = struct.unpack(">LLL", b[base:base + 12])
+    offs = struct.unpack(">6L", b[base + 0x0c:base + 0x24])
+    names = ["data", "plaintext_hash_tree", "crypttext_hash_tree", "block_hashes", "share_hashes", "uri_extension"]
+    o = dict(zip(names, offs))
+    ueblen, = struct.unpack(">L", b[base + o["uri_extension"]:base + o["uri_extension"] + 4])
+    o["ueb_end"] = o["uri_extension"] + 4 + ueblen
+    return base, ver, block_size, data_size, o, b
+
+
+REGIONS = ["header", "data", "crypttext_hash_tree", "block_hashes", "share_hashes", "uri_extension"]
+
+
+def corrupt_share(path, region, rnd):
+    """flip one byte inside the named region; returns the absolute offset or None if the region is empty"""
+    base, ver, block_size, data_size, o, b = share_layout(path)
+    if region == "header":
+        lo, hi = 0, 0x24
+    elif region == "data":
+        lo, hi = o["data"], o["plaintext_hash_tree"]
+    elif region == "crypttext_hash_tree":
+        lo, hi = o["crypttext_hash_tree"], o["block_hashes"]
+    elif region == "block_hashes":
+        lo, hi = o["block_hashes"], o["share_hashes"]
+    elif region == "share_hashes":
+        lo, hi = o["share_hashes"], o["uri_extension"]
+    else:
+        lo, hi = o["uri_extension"], o["ueb_end"]
+    if hi <= lo:
+        return None
+    pos = base + rnd.randrange(lo, hi)
+    bb = bytearray(b)
+    bb[pos] ^= 1 << rnd.randrange(8)
+    with open(path, "wb") as f:
+        f.write(bytes(bb))
+    return pos
+
+
+def craft_bad_ciphertext_hashes(g, cap, bad_segs):
+    """Rewrite every share of `cap` so that block / share hash validation still passes but the
+    ciphertext hash tree has wrong leaves for `bad_segs` (consistently: new tree in every share, new
+    crypttext_root_hash in the UEB); returns the cap with the matching UEB hash.  Reading a bad
+    segment then fails in DownloadNode._check_ciphertext_hash *after* block validation."""
+    import struct
+    from allmydata import uri
+    from allmydata.hashtree import HashTree
+    from allmydata.util import hashutil
+    u = uri.from_string(cap)
+    si = u.get_storage_index()
+    newueb = None
+    for (srv, shnum, path) in g.share_files(si):
+        base, ver, block_size, data_size, o, b = share_layout(path)
+        b = bytearray(b)
+        o_cht, o_bh, o_ueb = o["crypttext_hash_tree"], o["block_hashes"], o["uri_extension"]
+        n_nodes = (o_bh - o_cht) // 32
+        nodes = [bytes(b[base + o_cht + 32 * i: base + o_cht + 32 * (i + 1)]) for i in range(n_nodes)]
+        ueb = bytes(b[base + o_ueb + 4: base + o["ueb_end"]])
+        d = uri.unpack_extension(ueb)
+        nseg = d['num_segments']
+        first_leaf = (n_nodes + 1) // 2 - 1
+        leaves = nodes[first_leaf:first_leaf + nseg]
+        for s in bad_segs:
+            if s < nseg:
+                leaves[s] = hashutil.crypttext_segment_hash(b"bogus%d" % s)
+        tree = list(HashTree(leaves))
+        assert len(tree) == n_nodes
+        for i, h in enumerate(tree):
+            b[base + o_cht + 32 * i: base + o_cht + 32 * (i + 1)] = h
+        d['crypttext_root_hash'] = tree[0]
+        ueb2 = uri.pack_extension(d)
+        assert len(ueb2) == len(ueb)
+        b[base + o_ueb + 4: base + o["ueb_end"]] = ueb2
+        with open(path, "wb") as f:
+            f.write(bytes(b))
+        newueb = ueb2
+    h = hashutil.uri_extension_hash(newueb)
+    return uri.CHKFileURI(u.key, h, u.needed_shares, u.total_shares, u.size).to_string()
+
+
+SERVER_PLANS = ["ok", "ok", "ok", "late", "error-all", "error-nth", "disconnect-nth", "hang-then-drop", "late-dyhb"]
+
+
+def gen_scenario(rng, want_crafted=False):
+    """A JSON-serialisable end-to-end scenario."""
+    k = rng.choice([1, 2, 2, 3])
+    n = rng.choice([x for x in (2, 3, 4, 5, 6) if x >= k])
+    nservers = rng.choice([1, 2, 3, 4, min(n + 3, 7)])
+    segsize = rng.choice([32, 64, 128])
+    size = rng.choice([1, 30, 56, 64, 100, 150, 300, 500])
+    sc = {"k": k, "n": n, "servers": nservers, "segsize": segsize, "size": size,
+          "grid_seed": rng.randrange(1 << 30), "policy": rng.choice(["random", "random", "fifo", "lifo"]),
+          "dataseed": rng.randrange(1 << 30),
+          "copies": [], "share_faults": [], "server_plans": {}, "reads": [], "crafted": []}
+    # extra copies of shares on other servers / removals: (op, index into share list, target server)
+    for i in range(rng.choice([0, 0, 1, 2, 3])):
+        sc["copies"].append([rng.randrange(64), rng.randrange(nservers)])
+    nfault = rng.choice([0, 1, 2, 3, 5])
+    for i in range(nfault):
+        sc["share_faults"].append([rng.randrange(64), rng.choice(["delete", "delete"] + REGIONS), rng.randrange(1 << 30)])
+    for s in range(nservers):
+        p = rng.choice(SERVER_PLANS)
+        if p != "ok":
+            sc["server_plans"][str(s)] = [p, rng.randrange(1, 12), rng.choice([1, 5, 11, 25])]
+    nreads = rng.choice([1, 2, 3])
+    for i in range(nreads):
+        if rng.random() < 0.4:
+            sc["reads"].append([[0, size]])
+        else:
+            group = []
+            for j in range(rng.choice([1, 1, 2, 3])):
+                off = rng.randrange(0, size + 1)
+                group.append([off, rng.randrange(0, size - off + 1)])
+            sc["reads"].append(group)     # a group = concurrent reads on the same node
+    if want_crafted:
+        nseg = max(1, -(-size // segsize))
+        sc["crafted"] = sorted(set(rng.randrange(nseg) for _ in range(rng.choice([1, 1, 2]))))
+        sc["share_faults"] = [f for f in sc["share_faults"] if f[1] == "delete"][:1]
+    return sc
+
+
+def plan_fn(kind, nth, delay):
+    if kind == "late":
+        return lambda m, i: ("delay", delay)
+    if kind == "late-dyhb":
+        return lambda m, i: ("delay", delay) if m == "get_buckets" else None
+    if kind == "error-all":
+        return lambda m, i: "error"
+    if kind == "error-nth":
+        return lambda m, i: "error" if i >= nth else None
+    if kind == "disconnect-nth":
+        return lambda m, i: "disconnect" if i == nth else None
+    if kind == "hang-then-drop":
+        return lambda m, i: "hang" if i >= nth else None
+    return None
+
+
+def run_scenario(sc, on_read=None):
+    """Executes the scenario on the real code.  Returns a dict with, per read group, the outcome of
+    every read ("ok"/"wrong-data"/error class/"stuck") and the oracle sets."""
+    import random
+    from allmydata.immutable import upload
+    from allmydata.util.consumer import MemoryConsumer
+    from allmydata import uri
+    import shutil
+    import os
+    rnd = random.Random(sc["dataseed"])
+    data = bytes(rnd.randrange(256) for _ in range(sc["size"]))
+    out = {"groups": [], "upload": "ok"}
+    with fault_grid(sc["grid_seed"], sc["policy"], "c03", num_servers=sc["servers"], num_clients=1,
+                    k=sc["k"], happy=1, n=sc["n"], max_segment_size=sc["segsize"]) as (rt, g):
+        c = g.clients[0]
+        (st, res), = wait_all(rt, [c.upload(upload.Data(data, convergence=b"c" * 16))])
+        if st != "ok":
+            out["upload"] = st
+            return out
+        cap = res.get_uri()
+        if isinstance(uri.from_string(cap), uri.LiteralFileURI):
+            out["upload"] = "literal"
+            return out
+        si = uri.from_string(cap).get_storage_index()
+        files = g.share_files(si)
+        # placement changes: copy a share to another server
+        for (idx, target) in sc["copies"]:
+            (srv, shnum, path) = files[idx % len(files)]
+            if target != srv and target in g.storage:
+                from allmydata.storage.server import storage_index_to_dir
+                d = os.path.join(g.storage[target].sharedir, storage_index_to_dir(si))
+                os.makedirs(d, exist_ok=True)
+                if not os.path.exists(os.path.join(d, str(shnum))):
+                    shutil.copy(path, os.path.join(d, str(shnum)))
+        files = g.share_files(si)
+        if sc["crafted"]:
+            cap = craft_bad_ciphertext_hashes(g, cap, sc["crafted"])
+        state = {(srv, shnum): "intact" for (srv, shnum, path) in files}
+        for (idx, kind, fseed) in sc["share_faults"]:
+            (srv, shnum, path) = files[idx % len(files)]
+            if state[(srv, shnum)] != "intact":
+                continue
+            if kind == "delete":
+                os.unlink(path)
+                state[(srv, shnum)] = "deleted"
+            else:
+                if corrupt_share(path, kind, random.Random(fseed)) is not None:
+                    state[(srv, shnum)] = "corrupt"
+        maxdelay = 0
+        for s, (kind, nth, delay) in sc["server_plans"].items():
+            s = int(s)
+            if s in g.wrappers:
+                g.wrappers[s].plan = plan_fn(kind, nth, delay)
+                if kind in ("late", "late-dyhb"):
+                    maxdelay = max(maxdelay, delay)
+        answering = [s for s in g.wrappers if sc["server_plans"].get(str(s), ["ok"])[0] in ("ok", "late", "late-dyhb")]
+        reachable = [s for s in g.wrappers if sc["server_plans"].get(str(s), ["ok"])[0] != "error-all"]
+        good = sorted(set(shnum for (srv, shnum), st in state.items() if st == "intact" and srv in answering))
+        possible = sorted(set(shnum for (srv, shnum), st in state.items() if st != "deleted" and srv in reachable))
+        out.update({"good": good, "possible": possible, "k": sc["k"],
+                    "placement": sorted([srv, shnum, st] for (srv, shnum), st in state.items())})
+        node = c.create_node_from_uri(cap)
+        for group in sc["reads"]:
+            mcs = [MemoryConsumer() for _ in group]
+            ds = [node.read(mc, off, sz) for mc, (off, sz) in zip(mcs, group)]
+            # hung servers are eventually dropped (so that "every server has answered or failed")
+            for s, (kind, nth, delay) in sc["server_plans"].items():
+                if kind == "hang-then-drop" and int(s) in g.wrappers:
+                    w = g.wrappers[int(s)]
+                    rt.clock.callLater(30 + delay, w.drop)
+            results = wait_all(rt, ds, horizon=60 + 40 * maxdelay + 200)
+            outs = []
+            for (st, val), mc, (off, sz) in zip(results, mcs, group):
+                if st == "ok":
+                    got = b"".join(mc.chunks)
+                    outs.append("ok" if got == data[off:off + sz] else "wrong-data")
+                elif st == "err":
+                    outs.append(val.value.__class__.__name__)
+                else:
+                    outs.append("stuck")
+            out["groups"].append(outs)
+        dn = node._cnode._node
+        out["active_segment_left"] = dn._active_segment is not None
+    return out
